@@ -1,0 +1,69 @@
+//go:build verif
+
+package protocol
+
+import (
+	"sync/atomic"
+
+	"github.com/enfein/mieru/v3/pkg/appctl/appctlpb"
+)
+
+// Verification hook points. They exist only with the "verif" build tag and
+// are used by external runtime monitors to widen windows the program already
+// has (a callback may sleep or yield); they never change program state.
+const (
+	// VerifPointReadBeforeWait is in Session.Read between the decision that
+	// the receive queue is empty and the wait for new segments.
+	VerifPointReadBeforeWait = 1
+	// VerifPointCloseBeforeDiscard is in Session.closeWithError after the
+	// close request has been handed over and before send state is discarded.
+	VerifPointCloseBeforeDiscard = 2
+	// VerifPointWriteBeforeQueue is in Session.writeChunk before the output
+	// lock is taken to queue fragments.
+	VerifPointWriteBeforeQueue = 3
+	verifPointMax              = 8
+)
+
+var verifPoints [verifPointMax]atomic.Pointer[func()]
+
+// VerifSetPoint installs (or, with nil, removes) the callback of a hook point.
+func VerifSetPoint(id int, fn func()) {
+	if fn == nil {
+		verifPoints[id].Store(nil)
+		return
+	}
+	verifPoints[id].Store(&fn)
+}
+
+func verifPoint(id int) {
+	if p := verifPoints[id].Load(); p != nil {
+		(*p)()
+	}
+}
+
+// VerifLowEntropyEncode exposes the low entropy encoder to monitors.
+func VerifLowEntropyEncode(src []byte, mode uint8, halfMask uint32, rotation uint8, paddingBit uint8) ([]byte, error) {
+	return encodeLowEntropyPayloadWithPaddingBit(src, appctlpb.LowEntropyMode(mode), halfMask, appctlpb.LowEntropyMaskRotation(rotation), paddingBit)
+}
+
+// VerifLowEntropyDecode exposes the low entropy decoder to monitors.
+func VerifLowEntropyDecode(encoded []byte, extractedLen int, mode uint8, halfMask uint32, rotation uint8) ([]byte, error) {
+	return decodeLowEntropyPayload(encoded, extractedLen, appctlpb.LowEntropyMode(mode), halfMask, appctlpb.LowEntropyMaskRotation(rotation))
+}
+
+// VerifDataAckUnmarshal parses 32 metadata bytes the way the receive path
+// does and reports the error, if any.
+func VerifDataAckUnmarshal(b []byte) error {
+	das := &dataAckStruct{}
+	return das.Unmarshal(b)
+}
+
+// VerifLowEntropyWireDecode runs the receive-path low entropy body decoder
+// (metadata validation + decode) on a wire body followed by its 16-byte tag.
+func VerifLowEntropyWireDecode(meta []byte, wirePayload []byte) ([]byte, error) {
+	das := &dataAckStruct{}
+	if err := das.Unmarshal(meta); err != nil {
+		return nil, err
+	}
+	return decodeLowEntropyEncryptedPayload(wirePayload, das)
+}
